@@ -37,6 +37,8 @@ impl CancellationFlag for CountingFlag {
 pub struct RunCfg {
     pub lazy: bool,
     pub globals: Vec<(String, Value)>,
+    /// bindings of an enclosing `Variables` the supplied set is nested in (empty = not nested)
+    pub outer_globals: Vec<(String, Value)>,
     /// (location attr, variable-name attr, match-node attr)
     pub debug: Option<(String, String, String)>,
     pub cancel_at: Option<usize>,
@@ -48,6 +50,17 @@ pub struct ImplRun {
     /// graph after the run (also after a failed run: `execute_into` leaves its partial work)
     pub graph: Option<Sexp>,
     pub polls: usize,
+}
+
+thread_local! {
+    /// set when an execution left the caller's `Variables` changed (checked by C16 / C12)
+    pub static GLOBALS_CHANGED: Cell<bool> = Cell::new(false);
+}
+
+fn snapshot(v: &Variables) -> Vec<(String, String)> {
+    let mut out: Vec<(String, String)> = v.iter().map(|(k, v)| (k.as_str().to_string(), format!("{:?}", v))).collect();
+    out.sort();
+    out
 }
 
 pub fn xerr_sexp(e: &ExecutionError) -> Sexp {
@@ -79,15 +92,24 @@ pub fn run_impl_into<'t>(graph: &mut Graph<'t>, file: &File, tree: &'t Tree, src
     let flag = CountingFlag { count: Cell::new(0), cancel_at: cfg.cancel_at };
     let r = catch_unwind(AssertUnwindSafe(|| {
         let functions = Functions::stdlib();
-        let mut globals = Variables::new();
+        let mut outer = Variables::new();
+        for (k, v) in &cfg.outer_globals {
+            outer.add(Identifier::from(k.as_str()), v.clone()).expect("duplicate global in harness");
+        }
+        let mut globals = if cfg.outer_globals.is_empty() { Variables::new() } else { Variables::nested(&outer) };
         for (k, v) in &cfg.globals {
             globals.add(Identifier::from(k.as_str()), v.clone()).expect("duplicate global in harness");
         }
+        let before: Vec<(String, String)> = snapshot(&globals);
+        let before_outer: Vec<(String, String)> = snapshot(&outer);
         let mut config = ExecutionConfig::new(&functions, &globals).lazy(cfg.lazy);
         if let Some((l, v, m)) = &cfg.debug {
             config = config.debug_attributes(Identifier::from(l.as_str()), Identifier::from(v.as_str()), Identifier::from(m.as_str()));
         }
         let res = file.execute_into(graph, tree, src, &config, &flag);
+        if snapshot(&globals) != before || snapshot(&outer) != before_outer {
+            GLOBALS_CHANGED.with(|c| c.set(true));
+        }
         let outcome = match &res {
             Ok(()) => sexp::tagged("ok", vec![]),
             Err(e) => sexp::tagged("err", vec![xerr_sexp(e)]),
@@ -141,7 +163,8 @@ pub fn run_model(drv: &mut Driver, table: &mut OracleTable, mi: &ModelInput, cfg
 }
 
 pub fn run_model_into(drv: &mut Driver, table: &mut OracleTable, mi: &ModelInput, cfg: &RunCfg, graph0: &Sexp) -> Sexp {
-    let globals = sexp::list(cfg.globals.iter().map(|(k, v)| sexp::list(vec![sexp::st(k), value_sexp(v, &crate::values::no_syn)])).collect());
+    let layer = |g: &Vec<(String, Value)>| sexp::list(g.iter().map(|(k, v)| sexp::list(vec![sexp::st(k), value_sexp(v, &crate::values::no_syn)])).collect());
+    let globals = if cfg.outer_globals.is_empty() { layer(&cfg.globals) } else { sexp::tagged("layers", vec![layer(&cfg.globals), layer(&cfg.outer_globals)]) };
     let debug = match &cfg.debug {
         None => sexp::tagged("debug", vec![opt_str(None), opt_str(None), opt_str(None)]),
         Some((l, v, m)) => sexp::tagged("debug", vec![opt_str(Some(l)), opt_str(Some(v)), opt_str(Some(m))]),
